@@ -477,41 +477,39 @@ def _signing_part(c):
     return c.get("op") == "send" and c.get("part") != "value"
 
 
-def _k_vout_index(c):
+def _signed_facts(c):
+    """facts of a signed in-domain scenario whose signing clauses are being evaluated and that must yield a transaction"""
     if not _signing_part(c):
-        return False
+        return None
     f = facts(c["args"])
-    return f.get("wellformed") and f["signed"] and f["kind"] in SEGWIT_KINDS and \
-        any(f["vouts"][j] != j for j in range(f["n_sel"]))
+    if not f.get("wellformed") or f["outside"] or not f["signed"] or f["req"] - f["fee"] < 0:
+        return None
+    return f
+
+
+def _k_vout_index(c):
+    f = _signed_facts(c)
+    return bool(f) and f["kind"] in SEGWIT_KINDS and any(f["vouts"][j] != j for j in range(f["n_sel"]))
 
 
 def _k_unselected(c):
-    if not _signing_part(c):
-        return False
-    f = facts(c["args"])
-    return f.get("wellformed") and f["signed"] and f["kind"] in SEGWIT_KINDS and \
-        any(f["vouts"][i] >= f["n_sel"] or f["vouts"][i] < -f["n_sel"] for i in range(f["n_sel"], f["n_unspent"]))
+    f = _signed_facts(c)
+    return bool(f) and f["kind"] in SEGWIT_KINDS and any(f["vouts"][i] >= f["n_sel"] for i in range(f["n_sel"], f["n_unspent"]))
 
 
 def _k_version_locktime(c):
-    if not _signing_part(c):
-        return False
-    f = facts(c["args"])
-    return f.get("wellformed") and f["signed"] and f["kind"] in SEGWIT_KINDS and (f["version"] != 1 or f["locktime"] != 0)
+    f = _signed_facts(c)
+    return bool(f) and f["kind"] in SEGWIT_KINDS and (f["version"] != 1 or f["locktime"] != 0)
 
 
 def _k_legacy_multi(c):
-    if not _signing_part(c):
-        return False
-    f = facts(c["args"])
-    return f.get("wellformed") and f["signed"] and f["kind"] in LEGACY_KINDS and f["n_sel"] >= 2
+    f = _signed_facts(c)
+    return bool(f) and f["kind"] in LEGACY_KINDS and f["n_sel"] >= 2
 
 
 def _k_legacy_flag(c):
-    if not _signing_part(c):
-        return False
-    f = facts(c["args"])
-    if not (f.get("wellformed") and f["signed"] and f["kind"] in LEGACY_KINDS and f["flag"] is not None):
+    f = _signed_facts(c)
+    if not f or f["kind"] not in LEGACY_KINDS:
         return False
     base = f["flag"] & 0x1F
     return base == 2 or (base == 3 and f["n_out"] >= 2)
